@@ -21,6 +21,11 @@ CLAIMED = {
         note="trusted: Lean kernel (+ propext, Quot.sound); zstd as a parameter with the stated contract; harness and line protocol. End-to-end equality of transactions/receipts for hex vs base64 submissions is exercised by the engine suite, not proved here.",
         technique="Lean 4 proof (state-machine invariant for nada, arithmetic for base64) + differential correspondence",
         ref="DESIGN.md §6 C15"),
+    "C20": dict(
+        text="Lean theorems over the start-up check model: a directory created under c reopens under c' iff all four recorded settings coincide (strings unbounded), any mismatch / missing record / non-directory fails, acceptance never rewrites, fresh run records exactly the creating configuration; the call order of start() (validate before opening the engine database) and the four keys are regenerated from the source and checked by decide; suite F runs the full creating x reopening matrix over 7 networks + empty x traces, tampered / foreign / file / empty / missing directories against the real validate_config_database and through the public start()",
+        note="trusted: Lean kernel (+ propext, Quot.sound); translator gen_start.py; to_string renderings injective; RocksDB",
+        technique="Lean 4 proof (case analysis over the four recorded keys) + regenerated call order + differential correspondence incl. the public start()",
+        ref="DESIGN.md §6 C20"),
 }
 PENDING_REASON = "not claimed yet in this commit: model and theorems for this property are still being built (see DESIGN.md §10 order of work)"
 
